@@ -46,8 +46,9 @@ class RequirementsTxtParser(BaseParser):
         that may be comments or may be pointers to other requirement files (-r ..._
         """
         return set(
-            # a trailing backslash continues the requirement (--hash options) on the next line
-            line.split("#")[0].strip().rstrip("\\").strip()
+            # per-requirement options (--hash=...) follow the requirement on the same
+            # line or, after a trailing backslash, on the next one
+            line.split("#")[0].split(" --")[0].strip().rstrip("\\").strip()
             for line in lines
             if not line.startswith(("#", "-r "))
         )
